@@ -1288,3 +1288,71 @@ Section Resume.
   Qed.
 End Resume.
 
+(* ====================================================================== *)
+(* witnesses: the decoders accept byte strings that are not an encoder's
+   output (wrong total length), so "wrong length -> error" holds for Round3
+   only; and the well-formedness predicates are inhabited                  *)
+
+Definition r1_trailing : bytes :=
+  magicRound1 ++ be_s 8 7 ++ write_chunk (curve_name P224) ++ repeat 0 56 ++ [9].
+Example r1_trailing_accepted :
+  DecodeRound1 P224 r1_trailing = Ok (mkR1 7 (curve_name P224) 0 0) /\
+  (length r1_trailing =? 16 + 2 * byteLen P224)%nat = false.
+Proof. vm_compute. split; reflexivity. Qed.
+
+(* Round2 with the curve-name length written as the two-byte uvarint 0x85 0x00 *)
+Definition dec_any : curve -> N -> bool -> option (N * N) := fun _ x odd => Some (x, if odd then 1 else 0).
+Definition r2_nonminimal : bytes :=
+  magicRound2 ++ be_s 8 7 ++ [133; 0] ++ curve_name P224 ++ repeat 0 (256 * 28) ++ repeat 0 32.
+Example r2_nonminimal_accepted :
+  DecodeRound2 dec_any P224 r2_nonminimal = Ok (mkR2 7 (curve_name P224) (repeat (0, 0) 256)) /\
+  (length r2_nonminimal =? 48 + 256 * byteLen P224)%nat = false.
+Proof. vm_compute. split; reflexivity. Qed.
+
+Definition gs_trailing : bytes :=
+  magicGarblerSession ++ be_s 8 7 ++ write_chunk (write_chunk (curve_name P224) ++ repeat 0 140) ++ [9].
+Example gs_trailing_accepted :
+  DecodeGarblerSession P224 gs_trailing = Ok (mkGS 7 (curve_name P224) 0 0 0 0 0) /\
+  (length gs_trailing =? 18 + 5 * byteLen P224)%nat = false.
+Proof. vm_compute. split; reflexivity. Qed.
+
+(* evaluator session whose choice-bit field holds 1 byte instead of 32 *)
+Definition es_short : bytes :=
+  magicEvalSession ++ be_s 8 7
+  ++ write_chunk (write_chunk (curve_name P224) ++ repeat 0 (258 * 28) ++ [255]).
+Example es_short_accepted :
+  DecodeEvaluatorSession P224 es_short
+  = Ok (mkES 7 (curve_name P224) 0 0 (repeat 0 256) (repeat true 8 ++ repeat false 248)) /\
+  (length es_short <? es_len P224)%nat = true.
+Proof. vm_compute. split; reflexivity. Qed.
+
+Theorem reject_length_refuted :
+  (exists c data m, DecodeRound1 c data = Ok m /\ length data <> (16 + 2 * byteLen c)%nat) /\
+  (exists dec c data m, DecodeRound2 dec c data = Ok m /\ length data <> (48 + 256 * byteLen c)%nat) /\
+  (exists c data s, DecodeGarblerSession c data = Ok s /\ length data <> (18 + 5 * byteLen c)%nat) /\
+  (exists c data s, DecodeEvaluatorSession c data = Ok s /\ (length data < es_len c)%nat).
+Proof.
+  split; [|split; [|split]].
+  - exists P224, r1_trailing, (mkR1 7 (curve_name P224) 0 0). destruct r1_trailing_accepted as (A & B).
+    split; [exact A|]. apply Nat.eqb_neq. exact B.
+  - exists dec_any, P224, r2_nonminimal, (mkR2 7 (curve_name P224) (repeat (0, 0) 256)).
+    destruct r2_nonminimal_accepted as (A & B). split; [exact A|]. apply Nat.eqb_neq. exact B.
+  - exists P224, gs_trailing, (mkGS 7 (curve_name P224) 0 0 0 0 0).
+    destruct gs_trailing_accepted as (A & B). split; [exact A|]. apply Nat.eqb_neq. exact B.
+  - exists P224, es_short. eexists. destruct es_short_accepted as (A & B). split; [exact A|]. apply Nat.ltb_lt. exact B.
+Qed.
+
+(* the well-formedness predicates are inhabited on every curve *)
+Example wf_inhabited c :
+  wf_r1 c (mkR1 1 (curve_name c) 2 3) /\ wf_gs c (mkGS 1 (curve_name c) 2 3 4 5 6) /\
+  wf_es c (mkES 1 (curve_name c) 2 3 (repeat 4 256) (repeat true 256)) /\
+  wf_r2 dec_any c (mkR2 1 (curve_name c) (repeat (5, 1) 256)).
+Proof.
+  assert (F : forall v, v < 256 -> fits (byteLen c) v).
+  { intros v Hv. unfold fits. eapply N.lt_le_trans; [exact Hv|].
+    rewrite <- (N.pow_1_r 256) at 1. apply N.pow_le_mono_r; [lia|]. pose proof (byteLen_pos c). lia. }
+  repeat split; cbn [r1_sid r1_name r1_ax r1_ay gs_sid gs_name gs_scalar gs_ax gs_ay gs_ainvx gs_ainvy
+                     es_sid es_name es_ax es_ay es_scalars es_bits r2_sid r2_name r2_choices fst snd];
+    try reflexivity; try (apply F; lia); try (repeat constructor; apply F; lia);
+    try (apply Forall_forall; intros x Hx; apply repeat_spec in Hx; subst x; try split; try (apply F; cbn; lia); reflexivity).
+Qed.
